@@ -60,9 +60,9 @@ Definition field_exact (ls : lenstyle) (e : Encoding.enc) (t : ty) (tag : option
 (* ---------- primitives ---------- *)
 
 Lemma enc_prim_unfold' ls e p tag v : bytes_empty p v = false ->
-  enc ls e (TPrim p) tag v = (let* pl := prim_enc e p v in framed_enc ls false tag pl).
+  enc ls e (TPrim p) tag v = (let* pl := prim_enc e p v in framed_enc_p ls p tag pl).
 Proof.
-  intros H. destruct p; try reflexivity. destruct v; try reflexivity. destruct b; [discriminate|reflexivity].
+  intros H. destruct p; try reflexivity. destruct v as [| |b| | | | |]; try reflexivity. destruct b; [discriminate|destruct ls; reflexivity].
 Qed.
 
 (* no length at all: the inner reader is handed everything that is left *)
@@ -85,22 +85,35 @@ Proof.
   - cbn [app bind]. apply B. reflexivity.
 Qed.
 
-(* Fixed<k>: a shorter payload is left-padded with zero bytes; what matters is how the padded payload reads *)
-Lemma fixed_padded_exact {A} k tag (k0 : bytes -> res (A * bytes)) pl v g r : blen pl <= k ->
-  k0 (zeros (k - blen pl) ++ pl) = Ok (v, []) -> tag_ok false tag ->
-  framed_enc (LFixed k) false tag pl = Ok g ->
+(* Fixed<k>: a shorter payload is padded with zero bytes (numbers in front, text behind: pad_payload); what matters is how the
+   padded payload reads *)
+Lemma fixed_padded_exact {A} k p tag (k0 : bytes -> res (A * bytes)) pl v g r : blen pl <= k ->
+  k0 (pad_payload p k pl) = Ok (v, []) -> tag_ok false tag ->
+  framed_enc_p (LFixed k) p tag pl = Ok g ->
   framed_dec (LFixed k) false tag k0 (g ++ r) = Ok (v, r).
 Proof.
   intros Hl Hk Ht Hg.
-  assert (Hlen : blen (zeros (k - blen pl) ++ pl) = k) by (rewrite blen_app, blen_zeros; lia).
-  destruct (framed_roundtrip (LFixed k) false tag k0 (zeros (k - blen pl) ++ pl) v r eq_refl) as [g' [Hg' Hr]].
+  assert (Hlen : blen (pad_payload p k pl) = k) by (unfold pad_payload; destruct p; rewrite blen_app, blen_zeros; lia).
+  destruct (framed_roundtrip (LFixed k) false tag k0 (pad_payload p k pl) v r eq_refl) as [g' [Hg' Hr]].
   - cbn [len_fits]. lia.
   - exact Ht.
   - exact Hk.
   - assert (g' = g); [|subst; exact Hr].
-    unfold framed_enc in Hg, Hg'. cbn [len_ser] in Hg, Hg'. rewrite Hlen in Hg'.
-    destruct (blen pl <=? k) eqn:E1; [|lia]. destruct (k <=? k) eqn:E2; [|lia]. cbn [bind] in Hg, Hg'.
-    rewrite N.sub_diag in Hg'. change (zeros 0) with (@nil N) in Hg'. cbn [app] in Hg'. congruence.
+    unfold framed_enc in Hg'. cbn [len_ser] in Hg'. rewrite Hlen in Hg'.
+    destruct (k <=? k) eqn:E2; [|lia]. cbn [bind] in Hg'.
+    rewrite N.sub_diag in Hg'. change (zeros 0) with (@nil N) in Hg'. cbn [app] in Hg'.
+    unfold framed_enc_p, framed_enc, pad_payload in *. cbn [len_ser] in Hg.
+    destruct (blen pl <=? k) eqn:E1; [|lia].
+    destruct p; cbn [bind] in Hg; congruence.
+Qed.
+
+Lemma framed_enc_p_starts_with_tag ls p t pl g r : tag_repr t ->
+  framed_enc_p ls p (Some t) pl = Ok g -> exists rest, tag_dec false (g ++ r) = Ok (t, rest).
+Proof.
+  intros Ht H. destruct ls as [|n| | | |]; try (eapply framed_enc_starts_with_tag; [exact Ht|exact H]).
+  destruct p; try (eapply framed_enc_starts_with_tag; [exact Ht|exact H]).
+  unfold framed_enc_p in H. destruct (blen pl <=? n); [|discriminate]. injection H as <-.
+  rewrite <- app_assoc. eexists. apply tag_roundtrip. exact Ht.
 Qed.
 
 Lemma canon_prim_sound ls e p tag v ctx g : canon_prim ls e p tag v ctx = Some g ->
@@ -108,12 +121,12 @@ Lemma canon_prim_sound ls e p tag v ctx g : canon_prim ls e p tag v ctx = Some g
 Proof.
   unfold canon_prim. destruct (bytes_empty p v) eqn:Eb; [discriminate|].
   destruct (prim_enc e p v) as [pl| | |] eqn:Ep; try discriminate.
-  destruct (framed_enc ls false tag pl) as [g0| | |] eqn:Ef; try discriminate.
+  destruct (framed_enc_p ls p tag pl) as [g0| | |] eqn:Ef; try discriminate.
   destruct (tag_ok_b tag) eqn:Et; cbn [andb]; [|discriminate].
   apply tag_ok_b_ok in Et.
   assert (Henc : enc ls e (TPrim p) tag v = Ok g0) by (rewrite enc_prim_unfold' by exact Eb; rewrite Ep; cbn [bind]; exact Ef).
   assert (Hstart : forall tg, tag = Some tg -> forall r, exists rest, tag_dec false (g0 ++ r) = Ok (tg, rest)).
-  { intros tg -> r. eapply framed_enc_starts_with_tag; [exact Et|exact Ef]. }
+  { intros tg -> r. eapply framed_enc_p_starts_with_tag; [exact Et|exact Ef]. }
   assert (Hne : forall tg, tag = Some tg -> g0 <> []).
   { intros tg Htg Hnil. destruct (Hstart tg Htg []) as [rest H]. rewrite Hnil in H. cbn in H. discriminate. }
   assert (Wrap : (forall f r, fits ctx r -> dec (S f) ls e (TPrim p) tag (g0 ++ r) = Ok (v, r)) ->
@@ -126,10 +139,10 @@ Proof.
     apply andb_prop in EA. destruct EA as [EA H3]. apply andb_prop in EA. destruct EA as [H1 H2]. apply ok_is_eq in H3.
     rewrite dec_prim_unfold.
     destruct (framed_roundtrip ls false tag (prim_dec e p) pl v r H1 H2 Et H3) as [g' [Hg' Hr]].
-    rewrite Ef in Hg'. injection Hg' as <-. exact Hr. }
+    rewrite (framed_enc_p_fit ls p tag pl H2) in Ef. rewrite Ef in Hg'. injection Hg' as <-. exact Hr. }
   destruct (match ls with LEmpty => int_strict e p v | _ => false end) eqn:EB.
   { intros [= <-]. apply Wrap. intros f r _. destruct ls; try discriminate.
-    rewrite dec_prim_unfold. unfold framed_enc in Ef. cbn [len_ser bind] in Ef. injection Ef as <-.
+    rewrite dec_prim_unfold. unfold framed_enc_p, framed_enc in Ef. cbn [len_ser bind] in Ef. injection Ef as <-.
     apply framed_empty_exact; [exact Et|].
     unfold int_strict in EB. destruct e; try discriminate; destruct p as [w| | |]; try discriminate; destruct v as [n| | | | | | |]; try discriminate;
       cbn [prim_enc] in Ep; injection Ep as <-; cbn [prim_dec].
@@ -142,12 +155,12 @@ Proof.
     destruct (bcd_fixed_field_exact k w tag n Et) as [g' [He' Hd']]; try lia.
     rewrite Henc in He'. injection He' as <-. apply Hd'. }
   destruct (match ls with
-            | LFixed k => (blen pl <=? k) && ok_is (prim_dec e p (zeros (k - blen pl) ++ pl)) v []
+            | LFixed k => (blen pl <=? k) && ok_is (prim_dec e p (pad_payload p k pl)) v []
             | _ => false
             end) eqn:EP.
   { intros [= <-]. apply Wrap. intros f r _. destruct ls as [|k| | | |]; try discriminate.
     apply andb_prop in EP. destruct EP as [Hk Hp]. apply ok_is_eq in Hp. rewrite dec_prim_unfold.
-    apply (fixed_padded_exact k tag (prim_dec e p) pl v g0 r); try assumption. lia. }
+    apply (fixed_padded_exact k p tag (prim_dec e p) pl v g0 r); try assumption. lia. }
   cbn [orb]. destruct ctx as [r0|]; [|discriminate].
   destruct (ok_is (framed_dec ls false tag (prim_dec e p) (g0 ++ r0)) v r0) eqn:ED; [|discriminate].
   intros [= <-]. apply Wrap. intros f r Hfit. cbn [fits] in Hfit. subst r. rewrite dec_prim_unfold. apply ok_is_eq. exact ED.
@@ -597,7 +610,7 @@ Lemma canon_prim_of_payload ls e p tag v pl ctx :
   exists g, canon_prim ls e p tag v ctx = Some g.
 Proof.
   intros Hd Hf Ht [He Hdec] Hb Hflat. unfold canon_prim. rewrite Hb, He.
-  destruct (len_roundtrip ls pl [] Hd Hf) as [l [Hs _]]. unfold framed_enc. rewrite Hs. cbn [bind].
+  destruct (len_roundtrip ls pl [] Hd Hf) as [l [Hs _]]. rewrite (framed_enc_p_fit ls p tag pl Hf). unfold framed_enc. rewrite Hs. cbn [bind].
   rewrite Ht, Hd, Hf, (ok_is_intro _ v [] Hflat Hdec). cbn [andb orb]. eexists. reflexivity.
 Qed.
 
@@ -616,7 +629,7 @@ Lemma class_int_nolen (big : bool) w tag n ctx : tag_ok_b tag = true -> n < 256 
   exists g, canon LEmpty (if big then EBigEndian else EDefault) (TPrim (PInt w)) tag (VInt n) ctx = Some g.
 Proof.
   intros Ht Hn. cbn [canon]. unfold canon_prim. cbn [bytes_empty].
-  destruct big; cbn [prim_enc framed_enc len_ser bind]; rewrite Ht; cbn [andb delimiting int_strict orb];
+  destruct big; cbn [prim_enc framed_enc_p framed_enc len_ser bind]; rewrite Ht; cbn [andb delimiting int_strict orb];
     (destruct (n <? 256 ^ w) eqn:E; [|lia]); cbn [orb]; eexists; reflexivity.
 Qed.
 
@@ -627,7 +640,7 @@ Proof.
   intros Ht Hk Hw H64. cbn [canon]. unfold canon_prim. cbn [bytes_empty prim_enc].
   destruct (bcd_roundtrip w n Hw H64) as [pl [He _]]. rewrite He.
   pose proof (bcd_enc_len n k pl H64 Hk He) as Hl.
-  unfold framed_enc. cbn [len_ser]. destruct (blen pl <=? k) eqn:E; [|lia]. cbn [bind]. rewrite Ht. cbn [andb bcd_fixed].
+  unfold framed_enc_p, framed_enc. cbn [len_ser]. destruct (blen pl <=? k) eqn:E; [|lia]. cbn [bind]. rewrite Ht. cbn [andb bcd_fixed].
   destruct (n <? 100 ^ k) eqn:E1; [|lia]. destruct (n <? 2 ^ (8 * w)) eqn:E2; [|lia]. destruct (n <? 2 ^ 64) eqn:E3; [|lia].
   cbn [andb]. rewrite !Bool.orb_true_r. cbn [orb]. eexists. reflexivity.
 Qed.
@@ -639,6 +652,35 @@ Lemma class_cp437 ls tag s pl ctx : delimiting ls = true -> len_fits ls (blen pl
 Proof.
   intros Hd Hf Ht He Hl. cbn [canon].
   apply (canon_prim_of_payload ls EDefault PString tag (VStr s) pl ctx Hd Hf Ht); [apply payload_cp437; assumption|reflexivity|exact I].
+Qed.
+
+(* CP437 text that does not end in NUL, SHORTER than (or as long as) its fixed-width field: padded behind, trimmed on reading
+   (in the class since the fix of F9; before, the padding went in front and came back as part of the text) *)
+Lemma trim_nul_rev_zeros n l : trim_nul_rev (repeat 0 n ++ l) = trim_nul_rev l.
+Proof. induction n as [|n IH]; [reflexivity|]. cbn [repeat app trim_nul_rev]. exact IH. Qed.
+
+Lemma cp437_dec_padded pl n : cp437_of_byte 0 = 0 -> cp437_dec (pl ++ zeros n) = cp437_dec pl.
+Proof.
+  intros H0. unfold cp437_dec, trim_nul, zeros. rewrite map_app, rev_app_distr.
+  assert (E : forall m, rev (repeat 0 m) = repeat 0 m).
+  { intros m. induction m as [|m IH]; [reflexivity|]. cbn [repeat rev]. rewrite IH. clear IH.
+    induction m as [|m IH]; [reflexivity|]. cbn [repeat app]. rewrite IH. reflexivity. }
+  assert (M : forall m, map cp437_of_byte (repeat 0 m) = repeat 0 m).
+  { intros m. induction m as [|m IH]; [reflexivity|]. cbn [repeat map]. rewrite H0, IH. reflexivity. }
+  assert (R : rev (map cp437_of_byte (repeat 0 (N.to_nat n))) = repeat 0 (N.to_nat n)) by (rewrite M; apply E).
+  rewrite R, trim_nul_rev_zeros. reflexivity.
+Qed.
+
+Lemma class_cp437_fixed k tag s pl ctx : tag_ok_b tag = true ->
+  cp437_enc s = Ok pl -> (forall q x, s = q ++ [x] -> x <> 0) -> blen pl <= k ->
+  exists g, canon (LFixed k) EDefault (TPrim PString) tag (VStr s) ctx = Some g.
+Proof.
+  intros Ht He Hz Hl. cbn [canon]. unfold canon_prim. cbn [bytes_empty prim_enc]. rewrite He.
+  unfold framed_enc_p. destruct (blen pl <=? k) eqn:E; [|lia]. rewrite Ht. cbn [andb].
+  assert (P : ok_is (prim_dec EDefault PString (pad_payload PString k pl)) (VStr s) [] = true).
+  { unfold pad_payload. cbn [prim_dec]. rewrite cp437_dec_padded by reflexivity.
+    rewrite (cp437_str_roundtrip s pl He Hz). cbn [ok_is flat_eqb]. rewrite list_eqb_refl. reflexivity. }
+  rewrite P. rewrite !Bool.orb_true_r. cbn [orb]. eexists. reflexivity.
 Qed.
 
 (* lower-case hex text of even length *)
@@ -746,14 +788,14 @@ Lemma class_receipt_no tag n ctx : tag_ok_b tag = true -> n < 10000 \/ n = 65535
 Proof.
   intros Ht Hn. cbn [canon]. unfold canon_prim. cbn [bytes_empty prim_enc].
   destruct Hn as [Hn| ->].
-  2:{ change (65535 =? 65535) with true. cbn iota. unfold framed_enc. cbn [len_ser blen length]. cbn [N.of_nat]. 
+  2:{ change (65535 =? 65535) with true. cbn iota. unfold framed_enc_p, framed_enc. cbn [len_ser blen length]. cbn [N.of_nat]. 
       change (N.of_nat 2 <=? 2) with true. cbn [bind]. rewrite Ht. cbn [andb delimiting len_fits].
       change (blen [255; 255]) with 2. rewrite N.eqb_refl. cbn [andb]. cbn [prim_dec]. change ((255 =? 255) && (255 =? 255)) with true. cbn iota.
       cbn [ok_is flat_eqb]. rewrite N.eqb_refl. cbn [list_eqb andb orb]. eexists. reflexivity. }
   destruct (n =? 65535) eqn:E; [lia|].
   destruct (bcd_roundtrip 8 n) as [pl [He [Hdig [_ [_ [_ Hdec]]]]]]; [cbn; lia|cbn; lia|]. rewrite He.
   pose proof (bcd_enc_len n 2 pl ltac:(cbn; lia) ltac:(cbn; lia) He) as Hl.
-  unfold framed_enc. cbn [len_ser]. destruct (blen pl <=? 2) eqn:E2; [|lia]. cbn [bind]. rewrite Ht. cbn [andb].
+  unfold framed_enc_p, framed_enc, pad_payload. cbn [len_ser]. destruct (blen pl <=? 2) eqn:E2; [|lia]. cbn [bind]. rewrite Ht. cbn [andb].
   (* the padded payload is two digit bytes: never FF FF, and it reads back as n *)
   assert (P : ok_is (prim_dec EReceiptNo (PInt 8) (zeros (2 - blen pl) ++ pl)) (VInt n) [] = true).
   { assert (D : bcd_dec 8 (zeros (2 - blen pl) ++ pl) = Ok (n, [])) by (rewrite bcd_dec_padded; exact Hdec).
